@@ -174,7 +174,10 @@ def agg_oracle(case):
                 raise Violation(f"sum of an all-missing group = {out[k]!r}")
             continue
         exp = [valid.sum(), valid.mean(), valid.max(), valid[-1]][op]
-        if not abs(out[k] - exp) <= 1e-12 * np.abs(valid).sum():
+        # (relative to the group's own inputs; float64 has no relative
+        # precision below its smallest normal number, hence the floor)
+        if not abs(out[k] - exp) <= 1e-12 * np.abs(valid).sum() \
+                + 5e-324 * 4 * len(valid):
             raise Violation(
                 f"aggregate(op={op}, maxnan={maxnan}) group {k} "
                 f"{xs.tolist()} -> {out[k]!r}, expected {exp!r}")
@@ -209,7 +212,7 @@ def agg_oracle(case):
         if (~nn).sum() == 0:
             continue
         m = xs[~nn].mean()
-        sc = 1e-12 * np.abs(xs[~nn]).sum()
+        sc = 1e-12 * np.abs(xs[~nn]).sum() + 5e-324 * 4 * len(xs)
         if not np.all(np.abs(fs[~nn] - m) <= sc):
             raise Violation(f"flathomogen group {k} {xs.tolist()} -> "
                             f"{fs.tolist()}, expected mean {m!r}")
@@ -495,7 +498,79 @@ def sizes_oracle(case):
     return {"nt": True, "labels": [f"n:{n}", f"layout:{layout}"]}
 
 
+def enum_many(tier):
+    """Numbers of groups far beyond the generated ones (decades of hourly or
+    centuries of daily groups; round numbers and powers of two)."""
+    gs = [65537, 100000, 109999, 110000, 110001, 131072, 200000, 262145]
+    if tier == "thorough":
+        gs += [10**6, 2**21 + 1, 5 * 10**6]
+    for g in gs:
+        for r in (1, 2):
+            for op in range(4):
+                yield {"groups": g, "run": r, "op": op}
+
+
+def many_oracle(case):
+    G, r, op = case["groups"], case["run"], case["op"]
+    rng = np.random.RandomState(G % 1000 + 7 * r + op)
+    x = np.round(rng.normal(size=G * r) * 10, 3)
+    x[rng.uniform(size=G * r) < 0.02] = np.nan
+    idx = np.repeat(np.arange(G, dtype=np.int64) + 199501, r)
+    maxnan = [0, 1][op % 2]
+    out = dutils.aggregate(idx if op < 2 else idx.astype(np.int32), x.copy(),
+                           op, maxnan)
+    if out.shape != (G,):
+        raise Violation(f"{G} groups of {r}: aggregate returns shape "
+                        f"{out.shape}")
+    X = x.reshape(G, r)
+    valid = ~np.isnan(X)
+    nnan = r - valid.sum(axis=1)
+    cnt = valid.sum(axis=1)
+    sums = np.where(valid, X, 0.).sum(axis=1)
+    with np.errstate(all="ignore"):
+        if op == 0:
+            exp = sums
+        elif op == 1:
+            exp = sums / cnt
+        elif op == 2:
+            exp = np.where(cnt > 0, np.nanmax(np.where(valid, X, -np.inf),
+                                              axis=1), np.nan)
+        else:
+            last = np.where(valid[:, -1], X[:, -1], X[:, 0])
+            exp = np.where(cnt > 0, last, np.nan)
+    rejected = nnan > maxnan
+    if not np.all(np.isnan(out[rejected])):
+        k = int(np.argmax(rejected & ~np.isnan(out)))
+        raise Violation(f"{G} groups of {r}, op {op}: group {k} has {nnan[k]} "
+                        f"> maxnan={maxnan} missing values but the result is "
+                        f"{out[k]!r}")
+    judged = ~rejected & (cnt > 0)
+    bad = judged & ~(np.abs(out - exp) <= 1e-12 * np.abs(
+        np.where(valid, X, 0.)).sum(axis=1))
+    if bad.any():
+        k = int(np.argmax(bad))
+        raise Violation(f"{G} groups of {r}, op {op}: group {k} "
+                        f"{X[k].tolist()} -> {out[k]!r}, expected {exp[k]!r}")
+    empty = ~rejected & (cnt == 0)
+    if op == 0 and empty.any() and not np.all(out[empty] == 0):
+        raise Violation("sum of an all-missing accepted group is not 0")
+    flat = dutils.flathomogen(idx, x.copy(), maxnan)
+    mean = np.where(rejected | (cnt == 0), np.nan,
+                    sums / np.maximum(cnt, 1))
+    expf = np.where(valid, np.repeat(mean, r).reshape(G, r), np.nan)
+    F = flat.reshape(G, r)
+    if not np.array_equal(np.isnan(F), np.isnan(expf)) or not np.all(
+            np.abs(F - expf)[~np.isnan(expf)] <= 1e-12 * np.repeat(
+                np.abs(np.where(valid, X, 0.)).sum(axis=1), r
+            ).reshape(G, r)[~np.isnan(expf)]):
+        raise Violation(f"{G} groups of {r}: flathomogen differs from the "
+                        "group means / missing pattern")
+    return {"nt": True, "labels": [f"groups:{G}", f"run:{r}"]}
+
+
 SUBS = [
+    Sub("C08.many-groups", many_oracle, enumerate=enum_many,
+        shards=(16, 16)),
     Sub("C08.infinite-values", inf_oracle, strategy=inf_case,
         n=(150, 3000), shards=(4, 8)),
     Sub("C08.sizes-around-powers-of-two", sizes_oracle, enumerate=enum_sizes,
